@@ -213,17 +213,26 @@ Section Nested.
   Definition nests_ok (l : list nnest) : Prop :=
     forall m, In m l -> exists mu, pvx (nn_param m) = XR mu /\ mu <> 0.
 
-  Lemma nl_H_values n zd H :
+  (* ln G_i *)
+  Definition gnl (n : nl_nests) (i : Z) : R :=
+    match find_nest n i with
+    | Some m => c1_of (nn_param m) * uval i
+                + c2_of (nn_param m) * ln (nsum aval uval (muR (nn_param m)) (nn_alts m))
+    | None => 0
+    end.
+
+  Lemma hnl_gnl n i : hnl n i = uval i + gnl n i.
+  Proof. unfold hnl, gnl. destruct (find_nest n i); reflexivity. Qed.
+
+  Lemma nl_log_gi_value n zd k g :
     nl_guard pU av n zd = Ok tt ->
     nests_ok (nl_list n) ->
-    mev_h pU (nl_log_gi pU av n) = Ok H ->
-    forall k h, In (k, h) H -> aval k <> 0 -> pvx h = XR (hnl n k).
+    In k (keys U) -> aval k <> 0 ->
+    nl_log_gi pU av n k = Ok g -> pvx g = XR (gnl n k).
   Proof.
-    intros Hg Hok EH k h Hin Ha.
+    intros Hg Hok Hk Ha Hgk.
     destruct (nl_guard_inv _ _ _ _ Hg) as (_ & Hinc & Hcov). rewrite keys_pU in Hinc.
-    destruct (mev_h_inv _ _ _ EH) as [_ Hi]. destruct (Hi k h Hin) as (v & g & Hv & Hgk & ->).
-    apply In_pU in Hv as (e & -> & Hke). pose proof (HU k e Hke Ha) as Hev.
-    unfold nl_log_gi in Hgk. unfold hnl. destruct (find_nest n k) as [m|] eqn:Ef.
+    unfold nl_log_gi in Hgk. unfold gnl. destruct (find_nest n k) as [m|] eqn:Ef.
     - injection Hgk as <-. destruct (find_nest_some _ _ _ Ef) as [Hm Hkm].
       destruct (Hok m Hm) as (mu & Hmu & Hnz).
       assert (Hincm : incl (nn_alts m) (keys U)).
@@ -232,7 +241,7 @@ Section Nested.
       { destruct av; [|exact I]. intros j Hj. apply Hcov. now apply (in_concat_alts _ m). }
       pose proof (ev_nest_sum m mu Hmu Hincm Hcovm) as Hs.
       pose proof (nsum_pos aval uval mu (nn_alts m) k Hkm Ha) as Hpos.
-      destruct (getd_pU k (In_keys U k e Hke)) as (e' & -> & Hke').
+      destruct (getd_pU k Hk) as (e' & -> & Hke').
       assert (Hlog : ev (EUn Log (nest_sum pU av m)) = XR (ln (nsum aval uval mu (nn_alts m)))).
       { rewrite ev_un_log, Hs. simpl. now rewrite Rltb'_true. }
       assert (Hmu' : muR (nn_param m) = mu) by (unfold muR; now rewrite Hmu).
@@ -243,12 +252,22 @@ Section Nested.
       { apply pvX_pmul_PE; [now apply (c1_def _ mu)|now apply (HU k e')]. }
       assert (H2 : pvx t2 = XR (c2_of (nn_param m) * ln (nsum aval uval mu (nn_alts m)))).
       { apply pvX_pmul_PE; [now apply (c2_def _ mu)|assumption]. }
-      assert (H3 : pvx (padd t1 t2) = XR (c1_of (nn_param m) * uval k
-                                          + c2_of (nn_param m) * ln (nsum aval uval mu (nn_alts m)))).
-      { unfold t2 in *. rewrite pmul_PE_r in *. apply pvX_padd_PE; [assumption|exact H2]. }
-      apply pvX_padd_PE_l; assumption.
+      unfold t2 in *. rewrite pmul_PE_r in *. apply pvX_padd_PE; [assumption|exact H2].
     - destruct (memZ k (nl_alone n)); [|discriminate]. injection Hgk as <-.
-      apply pvX_padd_PE_l; [assumption|]. unfold pvX. simpl. now rewrite D2R_zero.
+      unfold pvX. simpl. now rewrite D2R_zero.
+  Qed.
+
+  Lemma nl_H_values n zd H :
+    nl_guard pU av n zd = Ok tt ->
+    nests_ok (nl_list n) ->
+    mev_h pU (nl_log_gi pU av n) = Ok H ->
+    forall k h, In (k, h) H -> aval k <> 0 -> pvx h = XR (hnl n k).
+  Proof.
+    intros Hg Hok EH k h Hin Ha.
+    destruct (mev_h_inv _ _ _ EH) as [_ Hi]. destruct (Hi k h Hin) as (v & g & Hv & Hgk & ->).
+    apply In_pU in Hv as (e & -> & Hke). pose proof (HU k e Hke Ha) as Hev.
+    rewrite hnl_gnl. apply pvX_padd_PE_l; [assumption|].
+    apply (nl_log_gi_value n zd k g Hg Hok (In_keys U k e Hke) Ha Hgk).
   Qed.
 
   Lemma lognested_value a ch0 t0 :
